@@ -415,12 +415,27 @@ class ConfigWalkContext:
             return self.path / self._configpath
         return self.path
 
+    @staticmethod
+    def _segment(key):
+        """Encodes a key as one path segment (plain names are unchanged)
+
+        Dictionary keys are arbitrary strings: used as such, "/abs" would
+        leave the job directory, and "" or "." would give two entries the
+        same folder
+        """
+        if isinstance(key, str):
+            key = key.replace("%", "%25").replace("/", "%2F")
+            key = {"": "%", ".": "%2E", "..": "%2E%2E"}.get(key, key)
+        return key
+
     @contextmanager
     def push(self, key: str):
         """Push a new key to contextualize paths"""
         p = self._configpath
         try:
-            self._configpath = (Path("out") if p is None else p) / key
+            self._configpath = (Path("out") if p is None else p) / self._segment(
+                key
+            )
             yield key
         finally:
             self._configpath = p
